@@ -64,6 +64,9 @@ BINARIES = {
     "alloc": {"sources": ["harness/alloc_catalog.cpp", "harness/alloc_catalog_2.cpp", "harness/alloc_catalog_3.cpp",
                           "harness/alloc_interpose.cpp", "engine/rc_driver.cpp"], "flavour": "o2", "libs": RC_LIBS,
               "harness": "alloc"},
+    "alloc_bounded": {"sources": ["harness/alloc_catalog.cpp", "harness/alloc_catalog_2.cpp", "harness/alloc_catalog_3.cpp",
+                                  "harness/alloc_interpose.cpp", "engine/rc_driver.cpp"], "flavour": "o2", "libs": RC_LIBS,
+                      "harness": "alloc", "defines": ["VERIF_ALLOC_BOUNDED"]},
     "crash_child": {"sources": ["harness/crash_child.cpp"], "flavour": "plain", "libs": [], "harness": "-"},
     "crashkid": {"sources": ["harness/crashkid.cpp", "engine/rc_driver.cpp"], "flavour": "plain", "libs": RC_LIBS,
                  "harness": "crashkid"},
@@ -424,6 +427,11 @@ PROPERTIES = {
             {"bin": "alloc",
              "quick": {"cases": 30000, "procs": 8, "maxlen": 400},
              "thorough": {"cases": 300000, "procs": 16, "maxlen": 400}},
+            # the same catalog on a user-defined FrontendOptions type (BoundedBlocking 128 KiB): FrontendImpl<Custom> /
+            # LoggerImpl<Custom> have their own thread-local context, preallocate() must prepare THAT one
+            {"bin": "alloc_bounded",
+             "quick": {"cases": 15000, "procs": 4, "maxlen": 400},
+             "thorough": {"cases": 150000, "procs": 8, "maxlen": 400}},
         ],
     },
     "C12": {
